@@ -28,8 +28,45 @@ def _findings(pid):
         len(known), len(commits))
 
 
+# stages and generator dimensions added after the texts below were written (DESIGN.md 8.18, 8.21, 8.23, 9.5)
+EXTRA = {
+    "C01": "Further stages: twins; files (an experiment of two BAM files against each file alone, distinct or coinciding "
+           "read names); crowded_end (many isoforms with a donor shortly before the end of the read's isoform); isoforms "
+           "with A-rich 3' ends and short T-rich 5' exons; far reads with an exon outside the gene.",
+    "C02": "Stage split runs loci cut into several processing regions, with the regions read from the debug log.",
+    "C03": "Templates: a gene with two separate read clusters and a nested gene between them, references with CDS "
+           "records (exon numbers 1..n), lower-case gene symbols.",
+    "C04": "Template: a gene with two separate read clusters and a nested gene between them.",
+    "C05": "Further structures: placed unmapped records, multi-mapped reads outside genes (the primary alignment is the "
+           "one reported), a small cluster ending in the bin in which a split cluster begins, one-base alignments.",
+    "C08": "A further relation re-runs the input without the alignments that lost: all outputs must be the same.",
+    "C09": "The transcript-model tables are checked for partition, matrix/linear agreement and against "
+           "transcript_model_reads.tsv; the headers of the grouped TPM tables must equal those of the count tables; "
+           "group names containing words of the headers; file:<table>:<read column>.",
+    "C10": "Dimensions: repeated / numeric / NA-like names and ids, ids with quotes, numeric labels, per-experiment "
+           "short-read files (YAML key illumina bam).",
+    "C11": "Stage corners holds parametrised noise-free templates (event order, micro-introns, threaded ends, adjacent "
+           "clusters, similar novel isoforms, overlapping unspliced transcripts, ragged polyA ends, introns on both "
+           "sides of a single-exon gene, a read-through tip); stage contig_start has reads aligned from the first bases "
+           "of a contig.",
+    "C12": "Further variants: per-contig BAM files with pruned headers, placed unmapped records, the reference as a "
+           "soft-masked copy; stage tie_weights puts fractional weights at rounding borders.",
+    "C14": "Tails aligned as terminal exons of their own; the short reads given as one file or split into two files in "
+           "another order must give the same result.",
+    "C16": "Hard clips outside the soft clips must not change anything; the tail position may lie beyond the retained "
+           "exon by the transcript bases of the removed exons only.",
+    "C17": "Templates: the extended annotation file itself (with CDS records) as reference of a second run, "
+           "GENCODE-style per-transcript ids, a gene copied to another contig at identical coordinates, a gene with two "
+           "read clusters and a nested gene.",
+    "C18": "Annotations that carry Canonical attributes of their own (every occurrence is checked); clause for the "
+           "reporting level only_canonical.",
+}
+
+
 def reg(pid, category, text, note, technique, design_ref):
     note = note.rstrip() + _findings(pid)
+    if EXTRA.get(pid):
+        text = text.rstrip() + " " + EXTRA[pid]
     CHECKS[pid] = {
         "property_id": pid,
         "quick_cmd": "./check %s --tier quick" % pid,
